@@ -17,6 +17,7 @@ import (
 type row struct {
 	N     int             `json:"n"`
 	Shape json.RawMessage `json:"shape"`
+	Sizes [][]int         `json:"sizes"` // item sizes per size pattern of the specification
 }
 
 func fold(raw json.RawMessage, items [][]byte) ([]byte, error) {
@@ -68,13 +69,27 @@ func main() {
 		rounds = 40
 	}
 	for _, c := range rows {
-		for k := 0; k < rounds; k++ {
+		// the specification's size patterns; lists of more than 12 items only take every 7th pattern in the
+		// quick tier (the 70000-byte class would otherwise dominate the run)
+		pats := len(c.Sizes)
+		for k := 0; k < rounds+pats; k++ {
 			items := make([][]byte, c.N)
-			for i := range items {
-				// item lengths include 0, 1, 32 and 64 (a leaf that looks like a branch)
-				ln := []int{0, 1, 32, 64, 65, rng.Intn(100)}[rng.Intn(6)]
-				items[i] = make([]byte, ln)
-				rng.Read(items[i])
+			if k >= rounds {
+				p := k - rounds
+				if c.N == 0 || (vh.Tier() != "thorough" && c.N > 12 && (p+c.N)%7 != 0) {
+					continue
+				}
+				for i := range items {
+					items[i] = make([]byte, c.Sizes[p][i])
+					rng.Read(items[i])
+				}
+			} else {
+				for i := range items {
+					// item lengths include 0, 1, 32 and 64 (a leaf that looks like a branch)
+					ln := []int{0, 1, 32, 64, 65, rng.Intn(100)}[rng.Intn(6)]
+					items[i] = make([]byte, ln)
+					rng.Read(items[i])
+				}
 			}
 			want, err := fold(c.Shape, items)
 			if err != nil {
@@ -84,8 +99,12 @@ func main() {
 			key := fmt.Sprintf("n=%d", c.N)
 			rep.Case(key, true)
 			if string(got.Bytes()) != string(want) {
-				rep.Disagree(key, fmt.Sprintf("MerkleRoot(%d items) = %x, reference %x", c.N, got.Bytes(), want),
-					map[string]any{"n": c.N, "items": items, "shape": c.Shape})
+				lens := make([]int, len(items))
+				for i := range items {
+					lens[i] = len(items[i])
+				}
+				rep.Disagree(key, fmt.Sprintf("MerkleRoot(%d items of %v bytes) = %x, reference %x", c.N, lens, got.Bytes(), want),
+					map[string]any{"n": c.N, "item_lengths": lens, "shape": c.Shape})
 				break
 			}
 		}
